@@ -206,3 +206,84 @@ def report(ctx, prop, rule):
         ctx.ok(rule, f, f.node, "link model, %d abstract cases (parameter x new reference / None x pending tasks): old watchers removed, tasks cancelled, refs and source watchers rebuilt as specified" % n)
     else:
         ctx.fail(rule, f, f.node, "link model: %s (%d disagreeing observation(s))" % (bad[0], len(bad)), key="%s::link-model::%s" % (f.qualname, prop))
+
+
+def resolve_model(ctx):
+    """Parameters._resolve_ref interpreted abstractly: what is assigned (a plain value / a reference whose sources are all
+    ordinary, all constant or mixed / a reference whose evaluation is skipped / a coroutine function / an async generator).
+
+    Specification: a value without dependencies that is not asynchronous comes back as a plain value (no reference); anything
+    else comes back AS a reference -- the object assigned, with every dependency found -- whatever kind of parameter the
+    sources are (a constant source still changes, under edit_constant or by following its own link); the value is the
+    resolved one (Undefined when evaluation is skipped, None while an asynchronous evaluation is pending, which is
+    scheduled exactly once)."""
+    from engine.absint import _Raise
+    f = ctx.repo.func(P + "Parameters._resolve_ref")
+    problems, n = [], 0
+    UNDEF = Obj("Undefined")
+    for kind in ("plain", "ref-ordinary", "ref-constant", "ref-mixed", "ref-skip", "coroutine", "asyncgen", "coroutine-with-deps"):
+        given = Obj("assigned_object")
+        resolved = Obj("resolved_value")
+        mk = lambda nm, const: Obj(nm, constant=const, readonly=False, name=nm, owner=Obj("source_of_" + nm))
+        deps = {"plain": [], "ref-ordinary": [mk("d1", False), mk("d2", False)], "ref-constant": [mk("d1", True), mk("d2", True)], "ref-mixed": [mk("d1", True), mk("d2", False)],
+                "ref-skip": [mk("d1", False)], "coroutine": [], "asyncgen": [], "coroutine-with-deps": [mk("d1", False)]}[kind]
+        scheduled = []
+
+        def hook(fn, args, kwargs, kind=kind, deps=deps):
+            if fn == "inspect.isgeneratorfunction":
+                return kind == "asyncgen"
+            if fn == "iscoroutinefunction":
+                return kind.startswith("coroutine")
+            if fn == "resolve_ref":
+                return list(deps)
+            if fn == "resolve_value":
+                if kind == "ref-skip":
+                    raise _Raise("Skip")
+                return resolved if args and args[0] is given else TOP_
+            if fn == "partial":
+                return Obj("partial", args=list(args))
+            if fn == "async_executor":
+                scheduled.append(args[0] if args else None)
+                return None
+            return NotImplemented
+        TOP_ = Obj("unexpected")
+        it = Interp(ctx.hier, dyn=P + "Parameters", inline=lambda m: False, call_hook=hook, globals={"Undefined": UNDEF})
+        try:
+            outs = it.run_all(f, {"self_": Obj("ns", _async_ref=Obj("bound__async_ref")), "pobj": Obj("pobj", name="x", nested_refs=False), "value": given})
+        except Unsupported as e:
+            raise AnalysisError("link model: absint cannot interpret Parameters._resolve_ref: %s" % e)
+        if len(outs) != 1 or outs[0].imprecise or outs[0].kind != "return" or not (isinstance(outs[0].value, tuple) and len(outs[0].value) == 4):
+            raise AnalysisError("link model: Parameters._resolve_ref is not interpretable precisely for %s (%s)" % (kind, outs[0].notes[:2] if outs else "no outcome"))
+        n += 1
+        ref, gdeps, val, is_async = outs[0].value
+        asyn = kind in ("coroutine", "asyncgen", "coroutine-with-deps")
+        desc = {"plain": "a plain value", "ref-ordinary": "a reference to ordinary parameters", "ref-constant": "a reference whose sources are all constant parameters",
+                "ref-mixed": "a reference to a constant and an ordinary parameter", "ref-skip": "a reference whose evaluation is skipped", "coroutine": "a coroutine function",
+                "asyncgen": "an asynchronous generator function", "coroutine-with-deps": "a coroutine function bound to a parameter"}[kind]
+        if kind == "plain":
+            if ref is not None or val is not given or is_async is not False:
+                problems.append("%s comes back as (ref=%r, value=%r, async=%r), specification (None, the value, False)" % (desc, ref, val, is_async))
+            continue
+        if ref is not given:
+            problems.append("%s comes back without the reference (ref=%r): the parameter is given the value resolved now and never follows its source%s" % (
+                desc, ref, " -- a constant source still changes (edit_constant, or by following its own link)" if kind == "ref-constant" else ""))
+            continue
+        if not (isinstance(gdeps, list) and len(gdeps) == len(deps) and all(a is b for a, b in zip(gdeps, deps))):
+            problems.append("%s: the dependencies returned are %r, specification: every dependency found (%d)" % (desc, gdeps, len(deps)))
+        want_val = None if asyn else (UNDEF if kind == "ref-skip" else resolved)
+        if val is not want_val:
+            problems.append("%s: the value returned is %r, specification %r" % (desc, val, want_val))
+        if bool(is_async) != asyn or len(scheduled) != (1 if asyn else 0):
+            problems.append("%s: async=%r, %d evaluation(s) scheduled, specification async=%r, %d" % (desc, is_async, len(scheduled), asyn, 1 if asyn else 0))
+    return n, problems
+
+
+def report_resolve(ctx, rule):
+    n, problems = resolve_model(ctx)
+    f = ctx.repo.func(P + "Parameters._resolve_ref")
+    ctx.abstract_cases += n
+    if problems:
+        ctx.fail(rule, f, f.node, "link model (_resolve_ref): %s (%d disagreeing case(s))" % (problems[0], len(problems)), key=f.qualname + "::resolve-model")
+    else:
+        ctx.ok(rule, f, f.node, "link model: _resolve_ref on %d kinds of assigned object: anything with dependencies or asynchronous comes back as a reference with all its dependencies, "
+                                "whatever kind of parameter the sources are" % n)
